@@ -1,6 +1,8 @@
 package main
 
 import (
+	"go/types"
+	"fmt"
 	"go/token"
 	"strings"
 
@@ -31,99 +33,124 @@ func runC06(r *Report, p *Program) {
 
 func c06R1(h H) {
 	r := h.r
-	r.Rule("R1", "lookup order in configGroup.getConfig: lookups keyed by a value derived from ClientHelloInfo.ServerName use it only after normalizedName (ToLower∘TrimSpace) on every data path; the exact-name lookup precedes every strings.Join candidate; candidates keep all labels and the ladder ascends by one; a hit returns at once; the \"\" catch-all lookup is reachable only after the ladder is exhausted; GetConfigForClient returns getConfig(...).tlsConfig", 8)
-	fn := h.fn("R1", tlsPkg, "configGroup.getConfig")
-	if fn == nil {
-		return
-	}
-	norm := func(v ssa.Value) bool { return isResultOf(v, 0, modPath+"/"+tlsPkg+".normalizedName") }
-	fromSNI := func(v ssa.Value) bool {
-		return derives(v, func(x ssa.Value) bool { return readsField(x, "ServerName") }, flowOpts{throughCalls: true})
-	}
-	var exact, cand, catchall []*ssa.Lookup
-	allInstrs(fn, func(in ssa.Instruction) {
-		l, ok := in.(*ssa.Lookup)
-		if !ok || !strings.HasSuffix(l.X.Type().String(), "configGroup") {
-			return
+	r.Rule("R1", "SNI lookup as a decision table (E10, opaque labels): configGroup.getConfig, evaluated for every group of up to three configs over the keys {a.b.c, *.b.c, *.*.c, *.*.*, catch-all, *.c, b.c} and the SNI name A.B.C in another letter case, returns the config of the most specific matching key (exact, wildcard ladder with all labels kept, catch-all) and an arbitrary one only when none matches; normalizedName lower-cases; GetConfigForClient returns getConfig(...).tlsConfig", 3)
+	// the lookup as a decision table (E10): config groups over the key universe {a.b.c, *.b.c, *.*.c, *.*.*, "" (catch-all),
+	// *.c, b.c}, every subset of up to three keys, SNI name " A.B.C " in another letter case
+	if fn := h.fn("R1", tlsPkg, "configGroup.getConfig"); fn != nil {
+		lab := func(name string, cv int) atom { return atom{sym: name, cv: cv} }
+		dot, star := atom{lit: "."}, atom{lit: "*"}
+		type keyPat struct {
+			name  string
+			atoms []atom
+			rank  int
 		}
-		if s, isC := constString(l.Index); isC && s == "" {
-			catchall = append(catchall, l)
-			return
+		lower := func(n string) atom { return atom{sym: n, lower: true} }
+		keys := []keyPat{
+			{"a.b.c", []atom{lower("A"), dot, lower("B"), dot, lower("C")}, 0},
+			{"*.b.c", []atom{star, dot, lower("B"), dot, lower("C")}, 1},
+			{"*.*.c", []atom{star, dot, star, dot, lower("C")}, 2},
+			{"*.*.*", []atom{star, dot, star, dot, star}, 3},
+			{"(catch-all)", nil, 4},
+			{"*.c", []atom{star, dot, lower("C")}, -1},
+			{"b.c", []atom{lower("B"), dot, lower("C")}, -1},
 		}
-		if jc, ok := l.Index.(*ssa.Call); ok && calleeName(&jc.Call) == "strings.Join" {
-			cand = append(cand, l)
-			whole := isResultOf(jc.Call.Args[0], 0, "strings.Split")
-			sep, _ := constString(jc.Call.Args[1])
-			splitOK := false
-			if sc, ok := jc.Call.Args[0].(*ssa.Call); ok && len(sc.Call.Args) == 2 {
-				s2, _ := constString(sc.Call.Args[1])
-				splitOK = s2 == "." && allFlowsThrough(sc.Call.Args[0], norm, true)
-			}
-			r.Check(whole && sep == "." && splitOK, "R1", "caskettls.configGroup.getConfig/candidate-from-all-labels-of-normalised-name", l.Pos(),
-				"each wildcard candidate joins the complete label list of the normalised SNI name", describe(l.Index))
-			return
-		}
-		if fromSNI(l.Index) {
-			exact = append(exact, l)
-			r.Check(allFlowsThrough(l.Index, norm, true), "R1", "caskettls.configGroup.getConfig/exact-key-normalised", l.Pos(),
-				"the SNI name is trimmed and lower-cased before it is used as a key (the map is keyed by lower-case host names)", describe(l.Index))
-		}
-	})
-	if len(exact) == 0 || len(cand) == 0 || len(catchall) == 0 {
-		r.Unresolve("R1", sprintf("getConfig: exact=%d candidate=%d catch-all=%d lookups recognised", len(exact), len(cand), len(catchall)))
-		return
-	}
-	isExact := func(in ssa.Instruction) bool {
-		for _, e := range exact {
-			if in == ssa.Instruction(e) {
-				return true
+		helloT := fn.Params[1].Type().(*types.Pointer).Elem()
+		mapT := underlying(fn.Params[0].Type()).(*types.Map)
+		cfgT := mapT.Elem().(*types.Pointer).Elem()
+		var subsets [][]int
+		subsets = append(subsets, nil)
+		for a := range keys {
+			subsets = append(subsets, []int{a})
+			for b := a + 1; b < len(keys); b++ {
+				subsets = append(subsets, []int{a, b})
+				for c := b + 1; c < len(keys); c++ {
+					subsets = append(subsets, []int{a, b, c})
+				}
 			}
 		}
-		return false
-	}
-	for _, c := range cand {
-		r.Check(mustPass(fn, c, isExact), "R1", "caskettls.configGroup.getConfig/exact-before-wildcard", c.Pos(), "the exact name is tried before any wildcard candidate")
-		if okv := commaOkOf(c); okv != nil {
-			hit := guardEdges(fn, true, func(v ssa.Value) bool { return v == okv })
-			more := false
-			for e := range hit {
-				s := e.From.Succs[e.Idx]
-				chk := func(in ssa.Instruction) bool {
-					if l, ok := in.(*ssa.Lookup); ok && strings.HasSuffix(l.X.Type().String(), "configGroup") {
-						more = true
+		bad, nrun := "", 0
+		for _, set := range subsets {
+			if bad != "" {
+				break
+			}
+			env := &absEnv{globals: map[string]*aobj{}, maxSteps: 50000}
+			cfgs := map[int]*aobj{}
+			mk := func() []aval {
+				m := amap{&amapData{vals: map[string]aval{}, keys: map[string]aval{}, typ: mapT}}
+				for _, k := range set {
+					cfgs[k] = &aobj{name: "config:" + keys[k].name, typ: cfgT, f: map[string]aval{}, in: func(o *aobj, path string, t types.Type) aval { return aunk{"config field " + path} }}
+					kv := mkStr(keys[k].atoms)
+					ks, _ := keyOf(kv)
+					m.m.vals[ks] = aptr{cfgs[k], ""}
+					m.m.keys[ks] = kv
+				}
+				hello := &aobj{name: "hello", typ: helloT, f: map[string]aval{}, in: func(o *aobj, path string, t types.Type) aval {
+					switch path {
+					case "ServerName":
+						return mkStr([]atom{lab("A", 2), dot, lab("B", 2), dot, lab("C", 2)})
+					case "Conn":
+						return anil{}
+					}
+					return aunk{"hello field " + path}
+				}}
+				return []aval{m, aptr{hello, ""}}
+			}
+			env.runForks(fn, mk, func(res aval, und string, _ int) bool {
+				nrun++
+				var names []string
+				for _, k := range set {
+					names = append(names, keys[k].name)
+				}
+				desc := "configs for {" + strings.Join(names, ", ") + "}, SNI A.B.C"
+				if und != "" {
+					bad = desc + ": undecided — " + und
+					return false
+				}
+				best := -1
+				for _, k := range set {
+					if keys[k].rank >= 0 && (best < 0 || keys[k].rank < keys[best].rank) {
+						best = k
+					}
+				}
+				got := -2
+				switch v := res.(type) {
+				case anil:
+					got = -1
+				case aptr:
+					for k, o := range cfgs {
+						if v.obj == o {
+							got = k
+						}
+					}
+				}
+				if best >= 0 {
+					if got != best {
+						g := "something else"
+						if got >= 0 {
+							g = keys[got].name
+						} else if got == -1 {
+							g = "no config"
+						}
+						bad = fmt.Sprintf("%s: the most specific matching config is %s, the code selects %s", desc, keys[best].name, g)
 						return false
 					}
 					return true
 				}
-				if f := firstInstr(s); f != nil && chk(f) {
-					reach(fn, f, cut{}, chk)
+				// nothing matches: any config of the listener (or none when there is none) may serve as the fallback
+				if _, isPtr := res.(aptr); !isPtr && got != -1 {
+					bad = desc + ": unexpected result " + describeAval(res)
+					return false
 				}
-			}
-			r.Check(len(hit) > 0 && !more, "R1", "caskettls.configGroup.getConfig/first-hit-returns", c.Pos(), "the first matching candidate (fewest wildcard labels) wins")
+				if len(set) == 0 && got != -1 {
+					bad = desc + ": a config is returned although the listener has none"
+					return false
+				}
+				return true
+			})
 		}
-		hd, _ := loopOf(c.Block())
-		for _, ca := range catchall {
-			ok := hd != nil && onlyVia(fn, ca, map[edge]bool{{hd, 1}: true})
-			r.Check(ok, "R1", "caskettls.configGroup.getConfig/catch-all-after-ladder", ca.Pos(), "the catch-all config is consulted only after every wildcard candidate failed")
-		}
-	}
-	n := 0
-	allInstrs(fn, func(in ssa.Instruction) {
-		st, ok := in.(*ssa.Store)
-		if !ok {
-			return
-		}
-		ia, ok := st.Addr.(*ssa.IndexAddr)
-		if !ok || !isResultOf(ia.X, 0, "strings.Split") {
-			return
-		}
-		n++
-		s, isStar := constString(st.Val)
-		step, isInd := unitStep(ia.Index)
-		r.Check(isStar && s == "*" && isInd && step == 1, "R1", "caskettls.configGroup.getConfig/wildcard-ladder", st.Pos(), "labels are replaced by \"*\" from the left, one more per iteration")
-	})
-	if n == 0 {
-		r.Unresolve("R1", "getConfig: wildcard ladder store not found")
+		r.Check(bad == "", "R1", "caskettls.configGroup.getConfig/table", fn.Pos(),
+			"for every group of up to three configs over the key universe the handshake is governed by the config whose name matches the normalised SNI name most specifically (exact, then *.b.c, *.*.c, *.*.*, then the catch-all); shorter patterns never match",
+			fmt.Sprintf("%d evaluations", nrun), bad)
 	}
 	if nn := h.fn("R1", tlsPkg, "normalizedName"); nn != nil {
 		okAll := true
@@ -151,45 +178,99 @@ func c06R1(h H) {
 
 func c06R2(h H) {
 	r := h.r
-	r.Rule("R2", "defaults: SetDefaultTLSParams stores a constant ≥ tls.VersionTLS12 into ProtocolMinVersion only on the ==0 edge, and prepends TLS_FALLBACK_SCSV; buildStandardTLSConfig copies ProtocolMinVersion→MinVersion, ProtocolMaxVersion→MaxVersion, ClientAuth→ClientAuth, ALPN→NextProtos and appends \"acme-tls/1\" to ALPN", 6)
-	sd := h.fn("R2", tlsPkg, "SetDefaultTLSParams")
-	if sd != nil {
-		found := false
-		allInstrs(sd, func(in ssa.Instruction) {
-			st, ok := in.(*ssa.Store)
-			if !ok {
-				return
-			}
-			fa, ok := st.Addr.(*ssa.FieldAddr)
-			if !ok || fieldName(fa.X.Type(), fa.Field) != "ProtocolMinVersion" {
-				return
-			}
-			found = true
-			c, isC := constInt(st.Val)
-			unset := false
-			for _, g := range guardAtoms(sd, nil, in) {
-				x, kind, cst, ok := intCmp(g.Cond)
-				if ok && kind == "eq" && cst == 0 && g.Pos && readsField(x, "ProtocolMinVersion") {
-					unset = true
+	r.Rule("R2", "defaults as a decision table (E10): SetDefaultTLSParams, evaluated for every combination of site-set/unset minimum version, maximum version and cipher list, keeps a set minimum and otherwise installs a constant not lower than TLS 1.2, and puts TLS_FALLBACK_SCSV in front of the cipher list; buildStandardTLSConfig copies ProtocolMinVersion→MinVersion, ProtocolMaxVersion→MaxVersion, ClientAuth→ClientAuth, ALPN→NextProtos and appends \"acme-tls/1\" to ALPN", 5)
+	if sd := h.fn("R2", tlsPkg, "SetDefaultTLSParams"); sd != nil {
+		cfgT := sd.Params[0].Type().(*types.Pointer).Elem()
+		bad, nrun := "", 0
+		for m := 0; m < 8 && bad == ""; m++ {
+			minSet, maxSet, ciphersSet := m&1 != 0, m&2 != 0, m&4 != 0
+			env := &absEnv{globals: map[string]*aobj{}, maxSteps: 50000}
+			env.cmp = func(a, b aval) (int, bool) {
+				// a version or cipher a site configured is not the zero value
+				if _, ok := a.(asym); ok {
+					if z, ok := b.(aint); ok && z == 0 {
+						return 1, true
+					}
 				}
+				if _, ok := b.(asym); ok {
+					if z, ok := a.(aint); ok && z == 0 {
+						return -1, true
+					}
+				}
+				return 0, false
 			}
-			r.Check(isC && c >= 0x0303 && unset, "R2", "caskettls.SetDefaultTLSParams/min-version-default", st.Pos(), "the default minimum protocol version is TLS 1.2 or higher and applies only when the site set none", sprintf("0x%04x", c))
-		})
-		if !found {
-			r.Unresolve("R2", "SetDefaultTLSParams: store to ProtocolMinVersion not found")
+			env.ext = func(callee string, args []aval) (aval, bool) {
+				if strings.HasSuffix(callee, "caskettls.getPreferredDefaultCiphers") {
+					return newVals([]aval{asym{"defaultcipher"}}, types.Typ[types.Uint16]), true
+				}
+				return nil, false
+			}
+			var cfg *aobj
+			mk := func() []aval {
+				cfg = &aobj{name: "config", typ: cfgT, f: map[string]aval{}, in: func(o *aobj, path string, t types.Type) aval {
+					switch path {
+					case "ProtocolMinVersion":
+						if minSet {
+							return asym{"sitemin"}
+						}
+						return aint(0)
+					case "ProtocolMaxVersion":
+						if maxSet {
+							return asym{"sitemax"}
+						}
+						return aint(0)
+					case "Ciphers":
+						if ciphersSet {
+							return newVals([]aval{asym{"sitecipher"}}, types.Typ[types.Uint16])
+						}
+						return anil{}
+					case "CurvePreferences":
+						return anil{}
+					}
+					return aunk{"config field " + path}
+				}}
+				return []aval{aptr{cfg, ""}}
+			}
+			env.runForks(sd, mk, func(_ aval, und string, _ int) bool {
+				nrun++
+				desc := fmt.Sprintf("min set=%v, max set=%v, ciphers set=%v", minSet, maxSet, ciphersSet)
+				if und != "" {
+					bad = desc + ": undecided — " + und
+					return false
+				}
+				gotMin := env.load(cfg, "ProtocolMinVersion")
+				if minSet {
+					if s, ok := gotMin.(asym); !ok || s.name != "sitemin" {
+						bad = desc + ": the site's own minimum version is replaced by " + describeAval(gotMin)
+						return false
+					}
+				} else if v, ok := gotMin.(aint); !ok || v < 0x0303 {
+					bad = desc + ": the default minimum version is " + describeAval(gotMin) + ", lower than TLS 1.2 (0x0303)"
+					return false
+				}
+				ciph, ok := env.load(cfg, "Ciphers").(avals)
+				if !ok || len(ciph.cells) < 2 {
+					bad = desc + ": cipher list after defaults: " + describeAval(env.load(cfg, "Ciphers"))
+					return false
+				}
+				if v, ok := ciph.cells[0].f[""].(aint); !ok || v != 0x5600 {
+					bad = desc + ": TLS_FALLBACK_SCSV is not first in the cipher list: " + describeAval(ciph)
+					return false
+				}
+				wantC := "defaultcipher"
+				if ciphersSet {
+					wantC = "sitecipher"
+				}
+				if s, ok := ciph.cells[1].f[""].(asym); !ok || s.name != wantC {
+					bad = desc + ": cipher list " + describeAval(ciph) + " does not continue with " + wantC
+					return false
+				}
+				return true
+			})
 		}
-		scsv := false
-		allInstrs(sd, func(in ssa.Instruction) {
-			c, ok := in.(*ssa.Call)
-			if !ok || calleeName(&c.Call) != "builtin.append" {
-				return
-			}
-			// append([]uint16{SCSV}, Ciphers...)
-			if derives(c.Call.Args[0], func(v ssa.Value) bool { n, ok := constInt(v); return ok && n == 0x5600 }, flowOpts{}) && readsFieldDeep(c.Call.Args[1], "Ciphers") {
-				scsv = true
-			}
-		})
-		r.Check(scsv, "R2", "caskettls.SetDefaultTLSParams/fallback-scsv-first", sd.Pos(), "TLS_FALLBACK_SCSV is placed in front of the cipher list")
+		r.Check(bad == "", "R2", "caskettls.SetDefaultTLSParams/table", sd.Pos(),
+			"the minimum protocol version stays the site's own when it set one and becomes a constant not lower than TLS 1.2 otherwise; TLS_FALLBACK_SCSV is placed in front of the site's (or the default) cipher list",
+			fmt.Sprintf("%d evaluations", nrun), bad)
 	}
 	bs := h.fn("R2", tlsPkg, "(*Config).buildStandardTLSConfig")
 	if bs != nil {
